@@ -222,7 +222,7 @@ def long_run_ops(rnd, n, payload, moves):
 
 def run(ctx):
     quick = ctx.tier == "quick"
-    consts = {"Payloads": "{7,8}", "MaxLive": 3 if quick else 4, "MaxMade": 4 if quick else 5, "MoveKeepsLen": "TRUE"}
+    consts = {"Payloads": "{7,8}", "MaxLive": 3 if quick else 4, "MaxMade": 4 if quick else 6, "MoveKeepsLen": "TRUE"}
     ctx.rule = ("TLC enumerates every reachable list (sequence of node identifiers over 2 payload values, so equal payloads "
                 "are the rule) and every operation on every live node; the real list is driven through every (state, "
                 "operation) pair with forward walk, backward walk, len() and iteration compared; random histories and long "
@@ -238,7 +238,7 @@ def run(ctx):
     ctx.note("walk %s" % stats)
     ctx.exhaustive = True
     rnd = random.Random(ctx.seed * 7919 + 8)
-    traces = [record(adapter, random_ops(rnd, 80 if quick else 400, [7, 8], 10)) for _ in range(40 if quick else 300)]
+    traces = [record(adapter, random_ops(rnd, 80 if quick else 400, [7, 8], 10)) for _ in range(40 if quick else 1500)]
     # long runs of one payload: "no operation fails because of list length or payload values"
     for n in ([1500] if quick else [1500, 4000]):
         traces.append(record(adapter, long_run_ops(rnd, n, 7, 12 if quick else 30)))
